@@ -1,26 +1,29 @@
 (* C17 — every call awaiting a reply completes exactly once.  Only theorem
    statements closed by [exact]; proofs live in Proofs/Pending*.v; the
    vocabulary ([trace], [at_most_once], [paired], ...) is Spec/PendingSpec.v.
-   [trace h] is the trace of ANY interleaving h of events (threads included,
-   completion and notification being separate events); [trace1] is
+   Every theorem is for every counter value b the connection may have reached
+   before the history starts ([valid_base b]: any non-zero 32-bit value; the
+   lookup key of a call is its full unsigned 32-bit serial).
+   [trace_at b h] is the trace of ANY interleaving h of events (threads included,
+   completion and notification being separate events); [trace1_at] is
    single-threaded use. *)
-From Coq Require Import List NArith Bool Arith.
+From Coq Require Import List NArith Bool Arith Lia.
 Import ListNotations.
 From DV Require Import PendingCall.Pending Spec.PendingSpec Proofs.PendingSerial Proofs.PendingLemmas Proofs.PendingRel Proofs.PendingCancel Proofs.PendingFault Proofs.PendingLive Proofs.PendingBlock Proofs.PendingNoFault Proofs.PendingRefute Proofs.PendingTie.
 Local Open Scope N_scope.
 
 (* the reply slot of every call is assigned at most once and its notify function runs at most once, in every history *)
-Theorem C17_at_most_once : forall h, at_most_once (trace h).
+Theorem C17_at_most_once : forall b h, valid_base b -> at_most_once (trace_at b h).
 Proof. exact at_most_once_all. Qed.
 Print Assumptions C17_at_most_once.
 
 (* whatever completes call i carries call i's serial; until the counter wraps no other call has that serial *)
-Theorem C17_pairing : forall h, nowrap h -> paired (trace h) /\ unshared (trace h).
+Theorem C17_pairing : forall b h, valid_base b -> nowrap_at b h -> paired (trace_at b h) /\ unshared (trace_at b h).
 Proof. exact pairing_all. Qed.
 Print Assumptions C17_pairing.
 
 (* serials handed out are non-zero and pairwise distinct as long as at most 2^32-1 were handed out *)
-Theorem C17_serials : forall h, N.of_nat (length (drawn (trace h))) <= two32 - 1 -> serials_ok (trace h).
+Theorem C17_serials : forall b h, valid_base b -> N.of_nat (length (drawn (trace_at b h))) <= two32 - 1 -> serials_ok (trace_at b h).
 Proof. exact serials_all. Qed.
 Print Assumptions C17_serials.
 
@@ -44,9 +47,10 @@ Print Assumptions C17_serial_wraps.
 
 (* "A cancelled call is never notified": full statement (Spec.PendingSpec.C17_cancel_silent_full_statement),
    which the faithful model does NOT meet; the part that holds: nobody blocks on the call after the cancel *)
-Theorem C17_cancel_silent_partial : forall h1 h2 i,
-  (i < length (call_serials (trace h1)))%nat -> count_complete i (trace h1) = 0%nat -> no_block_on i h2 ->
-  let tr2 := snd (run (fst (run init (h1 ++ [ECancel i]))) h2) in
+Theorem C17_cancel_silent_partial : forall b h1 h2 i,
+  valid_base b ->
+  (i < length (call_serials (trace_at b h1)))%nat -> count_complete i (trace_at b h1) = 0%nat -> no_block_on i h2 ->
+  let tr2 := snd (run (fst (run (init_at b) (h1 ++ [ECancel i]))) h2) in
   count_complete i tr2 = 0%nat /\ count_notify i tr2 = 0%nat.
 Proof. exact cancel_silent_partial. Qed.
 Print Assumptions C17_cancel_silent_partial.
@@ -58,13 +62,13 @@ Print Assumptions C17_cancel_silent_refuted.
 (* no schedule crashes the library: full statement Spec.PendingSpec.C17_no_fault_full_statement, refuted below
    (NULL timeout_link, fault 1); what holds: none of the C assertions in the completion path (reply slot empty,
    reply serial matches, not yet completed: faults 2-4) can ever fail, in any history *)
-Theorem C17_fault_only_null_link : forall h, fault (fst (run init h)) = 0 \/ fault (fst (run init h)) = 1.
+Theorem C17_fault_only_null_link : forall b h, fault (fst (run (init_at b) h)) = 0 \/ fault (fst (run (init_at b) h)) = 1.
 Proof. exact fault_only_null_link. Qed.
 Print Assumptions C17_fault_only_null_link.
 
 (* ... and the NULL timeout_link itself is unreachable as long as no thread waits (EBlock, EBlockCheck, EBlockStep)
    for a call after that call has been cancelled ([well_behaved]: at each wait the call's cancelled flag is down) *)
-Theorem C17_no_fault_partial : forall h, nowrap h -> well_behaved init h -> fault (fst (run init h)) = 0.
+Theorem C17_no_fault_partial : forall b h, valid_base b -> nowrap_at b h -> well_behaved (init_at b) h -> fault (fst (run (init_at b) h)) = 0.
 Proof. exact no_fault_partial. Qed.
 Print Assumptions C17_no_fault_partial.
 
@@ -81,32 +85,35 @@ Print Assumptions C17_close_completes_refuted.
    Spec.PendingSpec.C17_close_completes_full_statement (refuted above).  What holds:
    a call that is still awaited while a message with its serial is queued is completed exactly once and
    notified exactly once by dispatching the queue; ... *)
-Theorem C17_queued_reply_completes_once : forall h i c,
-  let st := fst (run1 init h) in
-  fault st = 0 -> nowrap1 h ->
+Theorem C17_queued_reply_completes_once : forall b h i c,
+  valid_base b ->
+  let st := fst (run1 (init_at b) h) in
+  fault st = 0 -> nowrap1_at b h ->
   nth_error (calls st) i = Some c -> c_intable c = true -> (exists m, In m (queue st) /\ m_rs m = c_serial c) ->
-  let tr := trace1 (h ++ repeat EDispatch (length (queue st))) in
+  let tr := trace1_at b (h ++ repeat EDispatch (length (queue st))) in
   count_complete i tr = 1%nat /\ count_notify i tr = b2n (c_hasnotify c).
 Proof. exact queued_reply_completes_once. Qed.
 Print Assumptions C17_queued_reply_completes_once.
 
 (* ... and a timeout that fires while registered leads to exactly one completion (with the local error) *)
-Theorem C17_timeout_completes_once : forall h i c,
-  let st := fst (run1 init h) in
-  fault st = 0 -> nowrap1 (h ++ [EFire i]) -> nth_error (calls st) i = Some c -> c_tadded c = true ->
-  let st1 := fst (run1 init (h ++ [EFire i])) in
-  let tr := trace1 ((h ++ [EFire i]) ++ repeat EDispatch (length (queue st1))) in
+Theorem C17_timeout_completes_once : forall b h i c,
+  valid_base b ->
+  let st := fst (run1 (init_at b) h) in
+  fault st = 0 -> nowrap1_at b (h ++ [EFire i]) -> nth_error (calls st) i = Some c -> c_tadded c = true ->
+  let st1 := fst (run1 (init_at b) (h ++ [EFire i])) in
+  let tr := trace1_at b ((h ++ [EFire i]) ++ repeat EDispatch (length (queue st1))) in
   count_complete i tr = 1%nat /\ count_notify i tr = b2n (c_hasnotify c).
 Proof. exact timeout_completes_once. Qed.
 Print Assumptions C17_timeout_completes_once.
 
 (* ... and a blocking wait that returns (does not sleep for ever on a call without timeout, does not hit F17.3)
    has completed the call it waited for: exactly once over the whole trace, also after the connection closed *)
-Theorem C17_block_completes_once : forall h i k,
-  let st := fst (run1 init h) in
+Theorem C17_block_completes_once : forall b h i k,
+  valid_base b ->
+  let st := fst (run1 (init_at b) h) in
   fault st = 0 -> nth_error (cores st) i = Some k ->
   returned (snd (step1 st (EBlock i))) -> fault (fst (step1 st (EBlock i))) = 0 ->
-  let tr := trace1 (h ++ [EBlock i]) in
+  let tr := trace1_at b (h ++ [EBlock i]) in
   count_complete i tr = 1%nat /\ count_notify i tr = b2n (k_hasnotify k).
 Proof. exact block_completes_once. Qed.
 Print Assumptions C17_block_completes_once.
@@ -142,3 +149,14 @@ Proof. vm_compute. split; [split; intros [H|[H|[]]]; discriminate|reflexivity]. 
 Example ex_well_behaved : well_behaved init [ESend true true; EFire 0; EBlock 0; ECancel 0; EDispatch] /\ nowrap [ESend true true; EFire 0; EBlock 0; ECancel 0; EDispatch].
 Proof. split; [|vm_compute; reflexivity]. simpl. unfold well, not_cancelled. repeat split; intros i Hb; try discriminate.
   simpl in Hb. apply Nat.eqb_eq in Hb. subst i. vm_compute. intros c H. inversion H; reflexivity. Qed.
+
+(* ---- the same histories on a connection whose counter is beyond 2^31, and across the wrap ---- *)
+Example ex_valid_high : valid_base 2147483646 /\ valid_base 4294967294. Proof. unfold valid_base, two32. lia. Qed.
+Example ex_high_serials : trace1_at 2147483646 [ESend true true; ESend true true; ESend true true; EPeerReply PReturn 2 5; ERead; EDispatch; EFire 1; EDispatch] =
+  [OSent (Some 2147483646); OSent (Some 2147483647); OSent (Some 2147483648);
+   OComplete 2 (mkMsg (KPeer PReturn) 2147483648 5); ODispatch false; ONotify 2; OFired true;
+   OComplete 1 (mkMsg KNoReply 2147483647 0); ODispatch false; ONotify 1].
+Proof. vm_compute. reflexivity. Qed.
+Example ex_wrap_serials : trace1_at 4294967294 [ESend true true; EPlain; ESend true true; EPeerReply PError 1 9; ERead; EDispatch] =
+  [OSent (Some 4294967294); OPlain 4294967295; OSent (Some 1); OComplete 1 (mkMsg (KPeer PError) 1 9); ODispatch false; ONotify 1].
+Proof. vm_compute. reflexivity. Qed.
